@@ -7,3 +7,8 @@ mod types;
 
 pub use state::H263State;
 pub use types::DecoderOption;
+
+#[cfg(feature = "verif-hooks")]
+pub use cpu::{idct_channel, inverse_rle};
+#[cfg(feature = "verif-hooks")]
+pub use picture::DecodedPicture;
